@@ -14,7 +14,8 @@ import values
 LEAN_MODULE = "Kio.Props.C10"
 THEOREMS = ["Kio.C10.errors_allowed", "Kio.C10.consumes_prefix",
             "Kio.C10.keyError_reachable_when_not_skipping", "Kio.C10.shipped_errors_allowed",
-            "Kio.C10.linear_steps", "Kio.C10.steps_erase", "Kio.C10.current_skips"]
+            "Kio.C10.linear_steps", "Kio.C10.steps_erase", "Kio.C10.current_skips",
+            "Kio.C10.linear_steps_all", "Kio.C10.huge_count_is_cheap"]
 
 
 def mutate(rng: random.Random, data: bytes) -> bytes:
